@@ -229,7 +229,7 @@ def main(tier: str, budget_s: Optional[float] = None) -> int:
         "rule": (
             "every supported configuration (entry point x -m: default and every accepted method x -g: default and every language with templates x "
             "[accounting_methods]: absent / one entry / several entries covering the input) x every input shape x date filters drawn from {before all, "
-            "each year start / mid-year / year end, the day after the last taxable event of a year, the day before an asset's first acquisition, after "
+            "each year start / mid-year / year end, the day of and the day after the last taxable event of a year, the day of its first one, the day before an asset's first acquisition, after "
             "all}: quick = no filter + 3 rotating filters per (configuration, shape), and every single-bound filter for plain rp2_us; thorough = every "
             "single-bound filter everywhere and every from <= to pair for rp2_us / rp2_jp defaults. One evaluation = one real CLI run in a fresh forked "
             "process. non-trivial = any option beyond the two file arguments"
